@@ -214,6 +214,12 @@ def generate_empi_dists_sequence(self, %(par)s, num_sums, seed_or_generator=None
     return empi_dists_sequence
 """,
 }
+T_EXEC_SAMPLING = """
+def execute_random_sampling(self, num, size, random_generator=None):
+    stream = to_stream(random_generator)
+    samplings = list(multinomial.rvs(num, self.ps, size=size, random_state=stream))
+    return samplings
+"""
 TOMO = [("StandardQst", "standard_qst.py", "state", "states", "state_index"),
         ("StandardPovmt", "standard_povmt.py", "povm", "povms", "target_index"),
         ("StandardQpt", "standard_qpt.py", "gate", "gates", "target_index"),
@@ -269,6 +275,9 @@ def extract():
                       ("generate_empi_dist_sequence_from_prob_dist", T_EMPI_SEQ),
                       ("generate_empi_dists_sequence_from_prob_dists", T_EMPIS_SEQ)):
         _match(_norm_src(_top(dg, name)), tpl, f"data_generator.{name}")
+    md = _parse("quara/objects/multinomial_distribution.py")
+    _match(_norm_src(_func(md, "MultinomialDistribution", "execute_random_sampling")), T_EXEC_SAMPLING,
+           "MultinomialDistribution.execute_random_sampling")
     ex = _parse(EXP)
     for name, tpl in T_EXP.items():
         _match(_norm_src(_func(ex, "Experiment", name)), tpl, f"Experiment.{name}")
